@@ -180,8 +180,32 @@ def fields_of(dt):
     return out
 
 
+def gen_big_chunk(r, fields, nrows, textual):
+    """many rows (beyond stdio / numpy block sizes): values drawn per column, vectorised"""
+    import numpy as np
+    rs = np.random.RandomState(r.randrange(2 ** 31))
+    a = np.zeros(nrows, dtype=np_dtype_of(fields))
+    for nm, ts, sh in fields:
+        kind, size = ts[1], int(ts[2:])
+        shape = (nrows,) + tuple(sh)
+        if kind in "iu":
+            lo, hi = (-(1 << (8 * size - 1)), (1 << (8 * size - 1)) - 1) if kind == "i" else (0, (1 << (8 * size)) - 1)
+            lo, hi = max(lo, -10 ** 9), min(hi, 10 ** 9)
+            a[nm] = rs.randint(lo, hi + 1, size=shape, dtype="i8")
+        elif kind == "f":
+            a[nm] = rs.randint(-9999, 9999, size=shape) / 8.0
+        elif kind == "S":
+            pool = np.frombuffer(S_CHARS.encode(), dtype="S1")
+            a[nm] = pool[rs.randint(0, len(pool), size=shape + (size,))].view("S%d" % size).reshape(shape)
+        else:
+            a[nm] = rs.randint(0, 2, size=shape)
+    return {"dtype": fields, "rows": rows_of(a)}
+
+
 def gen_chunk(r, fields, nrows, textual):
     import numpy as np
+    if nrows > 64:
+        return gen_big_chunk(r, fields, nrows, textual)
     dt = np_dtype_of(fields)
     a = np.zeros(nrows, dtype=dt)
     for nm, ts, sh in fields:
@@ -226,7 +250,7 @@ def reorder_chunk(r, ch, fields2):
 
 
 INCOMPAT = ["extra-field", "dropped-field", "renamed-field", "other-type", "other-size", "other-shape", "other-shape-same-rank",
-            "other-shape-other-rank", "shape-vs-scalar", "reordered-fields", "other-byte-order", "renamed-last-field", "other-type-last-field", "renamed-case-only"]
+            "other-shape-other-rank", "shape-vs-scalar", "reordered-fields", "other-byte-order", "renamed-last-field", "other-type-last-field", "renamed-case-only", "wider-string", "narrower-string"]
 
 
 def incompatible(r, fields, kind, textual):
@@ -253,6 +277,13 @@ def incompatible(r, fields, kind, textual):
             return None
         i = r.choice(shaped)
         f[i][2] = f[i][2] + [2] if r.random() < 0.5 else ([1] + f[i][2])
+        return f
+    if kind in ("wider-string", "narrower-string"):
+        cand = [j for j in range(len(f)) if f[j][1][1] == "S" and (kind == "wider-string" or int(f[j][1][2:]) > 1)]
+        if not cand:
+            return None
+        i = r.choice(cand)
+        f[i][1] = "|S%d" % (int(f[i][1][2:]) + (1 if kind == "wider-string" else -1))
         return f
     if kind == "renamed-case-only":
         cand = [j for j in range(len(f)) if f[j][0].swapcase() != f[j][0] and f[j][0].swapcase() not in [x[0] for x in f]]
@@ -366,24 +397,46 @@ class Builder:
         h = gen_header(self.r) if h == "gen" else h
         return None if h is None else repr(h)
 
+    # ---- the FORM in which an operation is issued (same meaning, other spelling); forms=False: the plain one
+    forms = True
+
+    def _view(self, c):
+        if not self.forms or self.r.random() < 0.5:
+            return "plain"
+        n = len(self.chunks[c]["rows"])
+        pool = ["recarray", "strided", "reversed", "readonly"]
+        if n == 1:
+            pool += ["zerod", "zerod"]      # (a numpy.void record is a scalar, not an array: outside the statement)
+        if n >= 2 and n % 2 == 0:
+            pool += ["twod"]
+        return self.r.choice(pool)
+
+    def _pick(self, pool):
+        return self.r.choice(pool) if self.forms else pool[0]
+
     def create(self, dl="base", h="gen", c=None):
-        self.ops.append({"k": "create", "dl": self.dl if dl == "base" else dl, "c": self.chunk() if c is None else c, "hdr": self.hdr(h)})
+        c = self.chunk() if c is None else c
+        self.ops.append({"k": "create", "dl": self.dl if dl == "base" else dl, "c": c, "hdr": self.hdr(h),
+                         "view": self._view(c), "ctor": self._pick(["new", "new", "reuse", "Open"]), "kw": self._pick(["full", "minimal"])})
 
     def again(self, c=None, h=None):
-        self.ops.append({"k": "again", "c": self.chunk() if c is None else c, "hdr": self.hdr(h)})
+        c = self.chunk() if c is None else c
+        self.ops.append({"k": "again", "c": c, "hdr": self.hdr(h), "view": self._view(c), "kw": self._pick(["full", "minimal"])})
 
     def close(self):
         self.ops.append({"k": "close"})
 
     def reopen(self, dl="base"):
-        self.ops.append({"k": "reopen", "dl": self.dl if dl == "base" else dl})
+        self.ops.append({"k": "reopen", "dl": self.dl if dl == "base" else dl, "ctor": self._pick(["new", "new", "reuse", "Open"]),
+                         "kw": self._pick(["full", "minimal"])})
 
     def fn(self, append, dl="base", h=None, c=None):
-        self.ops.append({"k": "fn", "append": bool(append), "dl": self.dl if dl == "base" else dl,
-                         "c": self.chunk() if c is None else c, "hdr": self.hdr(h)})
+        c = self.chunk() if c is None else c
+        self.ops.append({"k": "fn", "append": bool(append), "dl": self.dl if dl == "base" else dl, "c": c, "hdr": self.hdr(h),
+                         "view": self._view(c), "via": self._pick(["sfile", "sfile", "swapped", "io"]), "kw": self._pick(["full", "minimal"])})
 
     def read(self):
-        self.ops.append({"k": "read"})
+        self.ops.append({"k": "read", "via": self._pick(["fn", "fn", "cls", "slice", "io", "hdr"])})
 
     def case(self, family, adv=True):
         return {"chunks": self.chunks, "ops": self.ops, "family": family, "adv": adv}
@@ -428,10 +481,48 @@ def adversarial(r, textual, dl):
         b.fn(True, c=bad); b.read()
         b.reopen(); b.again(c=bad); b.read(); b.again(); b.close(); b.read()
         cs.append(b.case("adv:incompatible:%s:%s" % (kind, tag)))
+    # long handles: many writes through one 'w' object, through one 'r+' object (header= on later writes is ignored),
+    # and interleaved reopen / function append / overwrite
+    b = B(); b.create(h={"long": "w"})
+    for i in range(14):
+        b.again(h=r.choice([None, None, {"ignored": i}]))
+        if i % 4 == 1:
+            b.read()
+    b.close(); b.read(); cs.append(b.case("adv:long-w-handle:" + tag))
+    b = B(); b.fn(False, h={"long": "r+"}); b.reopen(dl=r.choice(DELIMS))
+    for i in range(14):
+        if i in (5, 11):
+            f2 = incompatible(r, b.fields, r.choice(["other-byte-order", "reordered-fields", "extra-field", "other-shape"]), textual)
+            if f2 is not None:
+                b.again(c=b.chunk(f2))
+        b.again(h=r.choice([None, {"ignored": i}]))
+        if i % 5 == 2:
+            b.read()
+    b.close(); b.read(); cs.append(b.case("adv:long-rp-handle:" + tag))
+    b = B(); b.create(); b.close()
+    for i in range(5):
+        b.reopen(dl=r.choice(DELIMS)); b.again(); b.again(h={"i": i}); b.close(); b.fn(True, dl=r.choice(DELIMS)); b.read()
+        if i == 2:
+            b.fn(False, h={"restart": True}); b.read()
+    cs.append(b.case("adv:interleaved:" + tag))
     # misuse outside the statement (correspondence only): write with no object open, append to an empty file
     b = B(); b.again(); b.read(); b.create(); b.close(); b.again(); b.read(); cs.append(b.case("adv:misuse-no-object:" + tag, adv=False))
     b = B(); b.reopen(); b.close(); b.fn(True); b.reopen(); b.read(); b.fn(False); b.read(); cs.append(b.case("adv:misuse-empty-file:" + tag, adv=False))
     return cs
+
+
+def big_histories(r, dl, sizes):
+    """chunks of very different sizes, beyond stdio (4096, 65536 bytes) and numpy block sizes (16384 rows)"""
+    textual = dl is not None
+    fields = [["n", "|u1", []], ["s", "|S1", []]] if textual else [["a", ">i2", []], ["b", "|u1", []]]
+    b = Builder(r, textual, dl, fields)
+    b.fn(False, h={"big": True}, c=b.chunk(nrows=sizes[0])); b.read()
+    b.fn(True, c=b.chunk(nrows=1)); b.reopen()
+    for n in sizes[1:]:
+        b.again(c=b.chunk(nrows=n)); b.read()
+    b.again(c=b.chunk(nrows=2)); b.close(); b.read()
+    tag = "bin" if dl is None else {",": "csv", "\t": "tab", " ": "space"}[dl]
+    return b.case("adv:big-chunks:" + tag)
 
 
 def random_history(r, maxops):
@@ -549,40 +640,113 @@ def file_dtype(dl, fields):
     return [[nm, ("<" + ts[1:]) if ts[0] == ">" else ts, sh] for nm, ts, sh in fields]
 
 
+def form_data(a, view):
+    """the same table handed over in another form (all of them are arrays of the statement: the rows are a[i])"""
+    import numpy as np
+    n = a.size
+    if view == "recarray":
+        return a.view(np.recarray)
+    if view == "strided":
+        big = np.frombuffer(bytes([0xAA]) * (2 * n * a.dtype.itemsize), dtype=a.dtype).copy()
+        big[::2] = a
+        return big[::2]
+    if view == "reversed":
+        rev = a[::-1].copy()
+        return rev[::-1]
+    if view == "readonly":
+        a.setflags(write=False)
+        return a
+    if view == "zerod" and n == 1:
+        return np.array(a[0])
+    if view == "void" and n == 1:
+        return a[0]
+    if view == "twod" and n >= 2 and n % 2 == 0:
+        return a.reshape(2, n // 2)
+    return a
+
+
 def run_history(case):
     """execute the history on the real code; returns the observations and the contract table"""
     import numpy as np
     import esutil.sfile as sfile
+    import copy
+    import esutil.io as eio
     fname = _fname()
-    datas = [make_data(ch) for ch in case["chunks"]]
     sf = sfile.SFile()
     obs, texts = [], []
+
+    def open_obj(o, mode):
+        """SFile(f, mode, delim=dl) in the spelling the case asks for"""
+        minimal = o.get("kw") == "minimal"
+        kw = {} if (minimal and o["dl"] is None) else {"delim": o["dl"]}
+        ctor = o.get("ctor", "new")
+        if ctor == "reuse":                      # the same object is opened again (SFile.open closes first)
+            sf.open(fname, mode=mode, **kw)
+            return sf
+        sf.close()
+        if ctor == "Open":                       # the deprecated alias
+            return sfile.Open(fname, mode, **kw)
+        return sfile.SFile(fname, mode, **kw) if not minimal else sfile.SFile(fname, mode=mode, **kw)
+
     for o in case["ops"]:
         k = o["k"]
         hdr = ast.literal_eval(o["hdr"]) if o.get("hdr") is not None else None
+        hkw = {} if (o.get("kw") == "minimal" and hdr is None) else {"header": hdr}
+        data_in = form_data(make_data(case["chunks"][o["c"]]), o.get("view", "plain")) if "c" in o else None
         spy = _PPSpy()
         sfile.pprint = spy
         ans = ["ok"]
         try:
             if k == "create":
-                sf.close()
-                sf = sfile.SFile()
-                sf = sfile.SFile(fname, "w", delim=o["dl"])
-                sf.write(datas[o["c"]], header=hdr)
+                try:
+                    sf = open_obj(o, "w")
+                except Exception:
+                    sf = sfile.SFile()
+                    raise
+                sf.write(data_in, **hkw)
             elif k == "again":
-                sf.write(datas[o["c"]], header=hdr)
+                sf.write(data_in, **hkw)
             elif k == "close":
                 sf.close()
             elif k == "reopen":
-                sf.close()
-                sf = sfile.SFile()
-                sf = sfile.SFile(fname, "r+", delim=o["dl"])
+                try:
+                    sf = open_obj(o, "r+")
+                except Exception:
+                    if o.get("ctor") != "reuse":
+                        sf = sfile.SFile()
+                    raise
             elif k == "fn":
                 sf.close()
                 sf = sfile.SFile()
-                sfile.write(fname, datas[o["c"]], header=hdr, delim=o["dl"], append=o["append"])
+                kw = dict(hkw)
+                if not (o.get("kw") == "minimal" and o["dl"] is None):
+                    kw["delim"] = o["dl"]
+                if not (o.get("kw") == "minimal" and not o["append"]):
+                    kw["append"] = o["append"]
+                via = o.get("via", "sfile")
+                if via == "io":                      # esutil.io.write for *.rec
+                    eio.write(fname, data_in, **kw)
+                elif via == "swapped":               # the documented (data, outfile) order
+                    sfile.write(data_in, fname, **kw) if isinstance(data_in, np.ndarray) else sfile.write(fname, data_in, **kw)
+                else:
+                    sfile.write(fname, data_in, **kw)
             elif k == "read":
-                data, h = sfile.read(fname, header=True)
+                via = o.get("via", "fn")
+                if via == "cls":
+                    with sfile.SFile(fname) as rs:
+                        data, h = rs.read(header=True)
+                elif via == "slice":
+                    with sfile.SFile(fname) as rs:
+                        data = rs[:]
+                        h = copy.deepcopy(rs.get_header())
+                        assert rs.nrows == h["_SIZE"] and rs.dtype == data.dtype
+                elif via == "io":
+                    data, h = eio.read(fname, header=True)
+                elif via == "hdr":
+                    h = sfile.read_header(fname)
+                    data = sfile.read(fname)
+                else:
+                    data, h = sfile.read(fname, header=True)
                 size = h.get("_SIZE")
                 ans = ["read", int(size) if isinstance(size, int) and not isinstance(size, bool) else -1,
                        fields_of(data.dtype) if (type(data) is np.ndarray and data.ndim == 1) else None,
@@ -658,6 +822,9 @@ class History(Entry):
         if round == 0:
             for dl in DELIMS:
                 cs += adversarial(r, dl is not None, dl)
+            cs.append(big_histories(r, None, [16385, 4097] if ctx.quick() else [16385, 4097, 70001, 32767]))
+            for dl in ([DELIMS[1 + ctx.seed % 3]] if ctx.quick() else DELIMS[1:]):
+                cs.append(big_histories(r, dl, [16385, 3]))
         n = ctx.n(120, 900) if round == 0 else ctx.n(60, 200)
         for i in range(n):
             cs.append(random_history(r, 8 if ctx.quick() else (40 if i % 8 == 0 else 14)))
@@ -749,9 +916,16 @@ class History(Entry):
         return parts[0] if len(parts) == 1 else "(" + " ++ ".join(parts) + ")"
 
     def term(self, c, out):
-        lets, known = [], []
+        lets, known, pay = [], [], {}
         for i, (ch, x) in enumerate(zip(c["chunks"], out["chunks"])):
-            txt = "[" + "; ".join("(%s, %s)" % (cbytes(dl.encode()), cbytes(bytes.fromhex(t))) for dl, t in x["txt"]) + "]"
+            tnm = []
+            for j, (dl, t) in enumerate(x["txt"]):
+                raw = bytes.fromhex(t)
+                lets.append("let x%d_%d : list byte := %s in" % (i, j, cbytes(raw)))
+                pay.setdefault(raw, "x%d_%d" % (i, j))
+                tnm.append("(%s, x%d_%d)" % (cbytes(dl.encode()), i, j))
+            txt = "[" + "; ".join(tnm) + "]"
+            pay.setdefault(b"".join(bytes.fromhex(rw) for rw in ch["rows"]), "(List.concat r%d)" % i)
             lets.append("let r%d := %s in" % (i, crows(ch["rows"])))
             known.append(("r%d" % i, ch["rows"]))
             if x["back"] == ch["rows"]:
@@ -782,9 +956,10 @@ class History(Entry):
                     if prev is not None and len(raw) >= len(prev) > 28 and raw[28:len(prev)] == prev[28:]:
                         head = prevname if raw[:28] == prev[:28] else "%s ++ skipn 28 %s" % (cbytes(raw[:28]), prevname)
                         tail = raw[len(prev):]
-                        lit = "(%s ++ %s)" % (head, cbytes(tail)) if tail else "(%s)" % head
+                        lit = "(%s ++ %s)" % (head, pay.get(tail) or cbytes(tail)) if tail else "(%s)" % head
                     else:
-                        lit = cbytes(raw)
+                        suf = max((t for t in pay if len(t) > 64 and raw.endswith(t)), key=len, default=None)
+                        lit = cbytes(raw) if suf is None else "(%s ++ %s)" % (cbytes(raw[:len(raw) - len(suf)]), pay[suf])
                     lets.append("let %s : list byte := %s in" % (nm, lit))
                     names[h] = nm
                     prev, prevname = raw, nm
@@ -944,6 +1119,14 @@ def run(ctx, replay=None):
                 "writes, >= 1 read and >= 2 fields.  distinct by canonical JSON.")
     ctx.trusted = TRUSTED
     _TMP[0] = os.path.join(ctx.work, "files")
+    # the case files of the big-chunk histories are long list literals: coqc (a child of this process) needs more
+    # than the default 8 MB of stack to elaborate them
+    try:
+        import resource
+        soft, hard = resource.getrlimit(resource.RLIMIT_STACK)
+        resource.setrlimit(resource.RLIMIT_STACK, (hard, hard))
+    except Exception as e:  # noqa
+        ctx.notes.append("could not raise the stack limit: %s" % e)
     if core.proof_step(ctx, "C03", core.ALLOW_DISCRETE) and replay is None:
         source_tie(ctx)
         if not ctx.quick():
